@@ -11,7 +11,7 @@
      [ev |-> "lint_file", f |-> path, d |-> decision]    [ev |-> "check", f |-> path, n |-> k]
      [ev |-> "done"]                                     [ev |-> "finalize_begin", n |-> k, w |-> sum of worker_done]
      [ev |-> "finalize_end", n |-> k]                    [ev |-> "worker", f |-> path]
-     [ev |-> "worker_done", f |-> path, n |-> k]                                                                  *)
+     [ev |-> "worker_done", f |-> path, n |-> k]         [ev |-> "abort"]                                                               *)
 EXTENDS System, IOUtils, TLCExt, Json
 
 Traces == JsonDeserialize(IOEnv.TRACE_FILE)
@@ -30,6 +30,7 @@ Step(e) ==
       [] e.ev = "finalize_end"   -> FinalizeEnd(e.n)
       [] e.ev = "worker"         -> WorkerBegin(e.f)
       [] e.ev = "worker_done"    -> WorkerDone(e.f, e.n)
+      [] e.ev = "abort"          -> Abort
 
 \* which clause of the protocol an un-consumable event breaks
 Clause(e) ==
@@ -42,6 +43,7 @@ Clause(e) ==
                                      ELSE IF phase = "pool" THEN "PoolConservation" ELSE "FinalizeOutsideRun")
       [] e.ev = "finalize_end"   -> (IF phase = "finalizing" THEN "FinalizeLostFindings" ELSE "FinalizeOutsideRun")
       [] e.ev = "worker_done"    -> (IF phase = "worker" THEN "WorkerConservation" ELSE "WorkerDoneOutsideWorker")
+      [] e.ev = "abort"          -> "AbortInsidePoolOrFinalize"
 
 TraceInit == Init /\ tid = 1 /\ i = 1 /\ bad = "ok" /\ at = 0
 Consume == /\ tid <= Len(Traces) /\ i <= Len(Ev) /\ bad = "ok"
